@@ -45,6 +45,7 @@ class Real:
         self.gid: dict[int, int] = {}
         self.tid: dict[int, int] = {}
         self.attr_graphs: set[int] = set()  # graph ids already used as a node attribute
+        self.funcs: dict[int, Any] = {}  # graph id -> ir.Function wrapping it (created on demand)
 
     # ---- registries
     def reg_val(self, v) -> int:
@@ -68,6 +69,16 @@ class Real:
     def V(self, i):
         return None if i is None else self.vals[i]
 
+    def GF(self, op: dict):
+        """The graph an operation addresses, or (when the call is spelled through a function) the
+        `ir.Function` wrapping it: Function.append/extend/insert_*/remove/sort/inputs/outputs delegate."""
+        g = op["g"]
+        if op.get("via") != "function":
+            return self.graphs[g]
+        if g not in self.funcs:
+            self.funcs[g] = _ir().Function("dom", f"f{g}", graph=self.graphs[g], attributes=[])
+        return self.funcs[g]
+
     def Vs(self, ids):
         return [self.vals[i] for i in ids]
 
@@ -85,7 +96,7 @@ class Real:
             return "raised", type(e).__name__, mop
 
     def _io(self, op):
-        g = self.graphs[op["g"]]
+        g = self.GF(op)
         return g.inputs if op["kind"] == "inp" else g.outputs
 
     def _apply(self, op: dict):
@@ -188,13 +199,13 @@ class Real:
         elif k == "setName":
             self.vals[op["v"]].name = op["s"]
         elif k == "append":
-            self.graphs[op["g"]].append(self.nodes[op["n"]])
+            self.GF(op).append(self.nodes[op["n"]])
         elif k == "extend":
-            self.graphs[op["g"]].extend(iter(self.Ns(op["ns"])))
+            self.GF(op).extend(iter(self.Ns(op["ns"])))
         elif k in ("insertAfter", "insertBefore"):
-            g, a, ns = self.graphs[op["g"]], self.nodes[op["a"]], self.Ns(op["ns"])
+            g, a, ns = self.GF(op), self.nodes[op["a"]], self.Ns(op["ns"])
             arg = ns[0] if op.get("single") and len(ns) == 1 else iter(ns)
-            if op.get("via") == "node" and a.graph is g:
+            if op.get("via") == "node" and a.graph is self.graphs[op["g"]]:
                 (a.append if k == "insertAfter" else a.prepend)(arg)
             elif k == "insertAfter":
                 g.insert_after(a, arg)
@@ -203,7 +214,7 @@ class Real:
         elif k == "remove":
             ns = self.Ns(op["ns"])
             arg = ns[0] if op.get("single") and len(ns) == 1 else ns
-            self.graphs[op["g"]].remove(arg, safe=op["safe"])
+            self.GF(op).remove(arg, safe=op["safe"])
         elif k == "rauwMany":
             import onnx_ir.convenience as conv
 
@@ -224,7 +235,7 @@ class Real:
             import onnx_ir.convenience as conv
 
             conv.replace_nodes_and_values(
-                self.graphs[op["g"]],
+                self.GF(op),
                 self.nodes[op["ip"]],
                 self.Ns(op["oldNodes"]),
                 self.Ns(op["newNodes"]),
@@ -236,7 +247,7 @@ class Real:
 
             g = self.graphs[op["g"]]
             involved = list(dict.fromkeys(id(n.graph) for n in tr.RecursiveGraphIterator(g) if n.graph is not None))
-            g.sort()
+            self.GF(op).sort()
             orders = [[self.gid[gi], [self.nid[id(n)] for n in self.graphs[self.gid[gi]]]] for gi in involved]
             return {"op": "sortOk", "orders": orders, "g": op["g"]}
         else:
@@ -615,7 +626,10 @@ class Gen:
             (self.replace_nodes_and_values, 2 if ng and nn else 0),
         ]
         fns, weights = zip(*[(f, x) for f, x in w if x > 0])
-        return rng.choices(fns, weights)[0]()
+        op = rng.choices(fns, weights)[0]()
+        if op["op"] in VIA_FUNCTION and "via" not in op and rng.random() < 0.2:
+            op["via"] = "function"
+        return op
 
     def new_value(self):
         return {"op": "newValue", "name": self.rng.choice(NAME_POOL + [None, None, None])}
@@ -940,7 +954,7 @@ def shape_of(op: dict, real: Real) -> str:
     elif k == "init":
         return op["m"] + (":multi" if op["m"] == "update" and len(op["kvs"]) > 1 else "")
     elif k in ("insertAfter", "insertBefore", "remove"):
-        return "via-node" if op.get("via") else "plain"
+        return "via-" + op["via"] if op.get("via") else "plain"
     elif k == "rauwMany":
         return "multi" if len(op["vs"]) > 1 else "single"
     elif k == "renameValues":
@@ -1009,6 +1023,8 @@ def fail_pos(op: dict, real: Real) -> str:
 EMPTY = {"values": [], "nodes": [], "graphs": [], "tensors": []}
 # composite calls for which the model (like the code) keeps the effects of the sub-calls before a rejected one
 NOT_ATOMIC = ("rauwMany", "replaceNodesAndValues")
+# calls that `ir.Function` forwards to its graph
+VIA_FUNCTION = ("io", "append", "extend", "insertAfter", "insertBefore", "remove", "sort", "replaceNodesAndValues")
 
 
 def run_one(rng: random.Random, length: int, part: Part, fixed_ops: list | None = None, p_invalid: float = 0.3) -> dict:
@@ -1231,6 +1247,8 @@ def small_alphabet(reduced: bool = False) -> list[dict]:
         {"op": "remove", "g": 0, "ns": [0, 1], "safe": True},
         {"op": "remove", "g": 1, "ns": [0], "safe": False},
         {"op": "sort", "g": 0},
+        {"op": "append", "g": 1, "n": 1, "via": "function"},
+        {"op": "io", "g": 1, "kind": "out", "m": "append", "v": 5, "via": "function"},
         {"op": "newNode", "opType": "Id", "name": None, "inputs": [3], "numOutputs": None, "outputs": [2], "graph": None},
         {"op": "newNode", "opType": "Id", "name": None, "inputs": [2], "numOutputs": 2, "outputs": None, "graph": 1},
         {"op": "newNode", "opType": "Id", "name": None, "inputs": [], "numOutputs": None, "outputs": [0], "graph": None},
